@@ -39,6 +39,16 @@ impl Regex {
     }
 }
 
+#[cfg(feature = "verif-hooks")]
+impl Regex {
+    /// Shadows `regex::Regex::is_match` (otherwise reached through `Deref`), so that the
+    /// simulator under `/verif` gets a yield point where the pass calls into the regex engine.
+    pub fn is_match(&self, haystack: &str) -> bool {
+        verif_point!("regex_is_match");
+        self.0.is_match(haystack)
+    }
+}
+
 impl From<regex::Regex> for Regex {
     fn from(value: regex::Regex) -> Self {
         Self(value)
